@@ -70,5 +70,9 @@ def small_constants(npts, degrees=(3, 3, 3, 3), iota=0.0, seed=0, **kw):
         base.update(kN0=float(rs.uniform(0.03, 0.08)), kTi=float(rs.uniform(0.2, 0.35)), kTe=float(rs.uniform(0.2, 0.35)),
                     deltaRTi=float(rs.uniform(0.9, 2.5)), deltaRTe=float(rs.uniform(0.9, 2.5)), deltaRN0=float(rs.uniform(1.8, 4.0)),
                     CTi=float(rs.uniform(0.8, 1.3)), CTe=float(rs.uniform(0.8, 1.3)), B0=float(rs.choice([1.0, 2.5, 0.6])))
+    if kw.pop("offsets", False) and seed % 4 >= 2:
+        # away from the default geometry: a z domain that does not start at 0 and a velocity domain that is not symmetric
+        z0 = float(rs.choice([-pi * R0, rs.uniform(-20, 20)]))
+        base.update(zMin=z0, zMax=z0 + 2 * pi * R0, vMin=-base["vMax"] * float(rs.choice([0.45, 1.6])))
     base.update(kw)
     return pg.make_constants(**base)
